@@ -75,6 +75,7 @@ pub fn add_stats(out: &mut RunOut, st: &rayon::sim::SimStats) {
     out.count("probe.reduction_tree_depth_ge3", (st.tree_depth >= 3) as u64);
     out.count("probe.executions_with_ge2_active_workers", (st.workers_that_ran_items >= 2) as u64);
     out.count("fault.F-subset(items withheld from the pipeline)", st.items_dropped);
+    out.count("fault.F-shortwrite(file writes cut short by the simulated file)", st.short_writes);
 }
 
 impl Check for C09 {
